@@ -80,6 +80,7 @@ func VerifC11KeyToSlotTag() {
 		return
 	}
 	// native replay: the same comparison through the real checksum
+	verifObserve("slot", int64(KeyToSlot(key)))
 	verifAssert(KeyToSlot(key) == digest.Crc16(ref)&0x3fff, "C11.KeyToSlot.tag")
 }
 
@@ -88,6 +89,8 @@ func VerifC11KeyToSlotE2E() {
 	n := verifRange("len", 0, verifParam("NE2E", 3))
 	key := verifStr("key", n)
 	want := verifRefCrc16(verifRefTag(key)) & 0x3fff
+	verifObserve("slot", int64(KeyToSlot(key)))
+	verifObserve("want", int64(want))
 	verifAssert(KeyToSlot(key) == want, "C11.KeyToSlot.e2e")
 }
 
